@@ -210,13 +210,15 @@ def oracle_clean(f, ctxv):
 
 def late_cancels(f):
     """number of receive / login calls that were cancelled LATE: cancel() arrived when the helper task had already completed (first
-    step: suspend on the empty queue, second step: take the message) and the call reported the cancellation — the one-turn window of
-    the recorded finding C04-late-cancel-loses-message.  A cancel that arrives earlier cancels the helper and must lose nothing."""
+    step: suspend on the empty queue, second step: take the message) and the call reported the cancellation (or the end of a queue
+    that was stopped in that very turn) — the one-turn window of
+    the former finding C04-late-cancel-loses-message (repaired: the held message goes to the queue's `_unclaimed` stash and the next
+    reader gets it first).  Counted for the evidence distribution only (`late-cancel-window`): no oracle makes an exception for it."""
     evs = [ev for ev, _ in f.res['log']]
     n = 0
     for ic, ev in enumerate(evs):
-        if isinstance(ev, list) and ev[0] == 'cancel' and f.rets().get(ev[1]) == 'cancelled':
-            starts = [k for k, e in enumerate(evs[:ic]) if isinstance(e, list) and e[0] in ('recv', 'login') and e[1] == ev[1]]
+        if isinstance(ev, list) and ev[0] == 'cancel' and f.rets().get(ev[1]) in ('cancelled', 'eoq', 'refused'):
+            starts = [k for k, e in enumerate(evs[:ic]) if isinstance(e, list) and e[0] in ('recv', 'login', 'paused_recv') and e[1] == ev[1]]
             if starts and sum(1 for e in evs[starts[-1]:ic] if e == ['run', 'V']) >= 2:
                 n += 1
     return n
@@ -229,29 +231,18 @@ def oracle_delivery(f, ctxv):
     wire, stopped = f.wire_msgs()
     delivered = f.delivered()
     if delivered != wire[:len(delivered)]:
-        # the recorded finding C04-late-cancel-loses-message shows up here as a gap when a later receive goes on with the next
-        # message: it is that finding iff the delivered sequence is the sent one with at most one message missing per receive /
-        # login that was cancelled while pending and reported the cancellation; anything else is a different violation
-        late = late_cancels(f)
-        it, gaps, ok = iter(wire), 0, True
-        for d in delivered:
-            for w in it:
-                if w == d:
-                    break
-                gaps += 1
-            else:
-                ok = False
-                break
-        kind = 'late-cancel-lost-message' if (ok and 0 < gaps <= late) else 'scenario'
-        ctxv((f'consumer saw {delivered} but the peer sent {wire}: not a prefix (gap, duplicate, reordering or invention)', kind))
+        # (a message lost to the late cancel of a receive — the former finding C04-late-cancel-loses-message — shows up here as a
+        # gap when a later receive goes on with the next message: a plain violation, with the scenario as the failing input)
+        ctxv(f'consumer saw {delivered} but the peer sent {wire}: not a prefix (gap, duplicate, reordering or invention)'
+             + (f'  [{late_cancels(f)} receive(s) cancelled after the helper task had taken a message]' if late_cancels(f) else ''))
         return
     drained = res.get('drained') or []
     if (not res['closed'] and not stopped and cfg['mode'] == 'pull' and res.get('drained') is not None
             and not any(ev == ['recv', it[1]] and it[1] not in f.rets() for it in f.script if it[0] == 'recv' for ev, _ in res['log'])):
         if delivered + drained != wire:
-            missing = len(wire) - len(delivered) - len(drained)
-            kind = 'late-cancel-lost-message' if 0 < missing <= late_cancels(f) else 'scenario'
-            ctxv((f'session open, all data polled, but consumer saw {delivered} and {drained} remained queued; the peer sent {wire}', kind))
+            # "a cancelled receive consumes no message": delivered ++ still queued must be everything that was received
+            ctxv(f'session open, all data polled, but consumer saw {delivered} and {drained} remained queued; the peer sent {wire}'
+                 + (f'  [{late_cancels(f)} receive(s) cancelled after the helper task had taken a message]' if late_cancels(f) else ''))
             return
     cancelled_users = [it[1] for it in f.script if it[0] == 'cancel']
     for u in cancelled_users:
@@ -381,7 +372,7 @@ def oracle_login(f, ctxv):
 
 ORACLES = {'C04': [oracle_delivery], 'C05': [oracle_close], 'C06': [oracle_clean, ], 'C07': [oracle_hostile],
            'C11': [oracle_login]}
-FOCUS = {'C04': ['deliver', 'deliver', None], 'C05': ['close', None, 'close'], 'C06': ['close', None, 'login'],
+FOCUS = {'C04': ['deliver', 'latecancel', 'deliver', None], 'C05': ['close', None, 'close'], 'C06': ['close', None, 'login'],
          'C07': ['hostile'], 'C11': ['login']}
 
 
@@ -434,6 +425,7 @@ def run_family(ctx, prop):
                        'machine (per-event observables + final task set compared) and the property oracle is evaluated on the '
                        'implementation alone; distinct = distinct (config, script); non-trivial = at least 5 logged events with observables')
     cases = []
+    ext_corpus = []         # corpus scenarios using API outside the Lean machine (`"ext": true`): oracle only
     cdir = os.path.join(VERIF, 'corpus', prop)
     if os.path.isdir(cdir):
         for fn in sorted(os.listdir(cdir)):
@@ -442,6 +434,9 @@ def run_family(ctx, prop):
                 continue            # application-session regressions: run by app_sessions.run_family_app
             if c.get('kind') == 'hostile' or (c.get('replay') or {}).get('kind') == 'hostile':
                 continue            # byte-level hostile streams: run by sess_hostile.run_hostile (C07)
+            if c.get('ext'):
+                ext_corpus.append((cfg_from_json(c['cfg']), script_from_json(c['script']), c.get('seed', 0), c.get('settle', 0.05), fn))
+                continue
             cases.append((cfg_from_json(c['cfg']), script_from_json(c['script']), c.get('seed', 0), 'corpus:' + fn))
     if prop == 'C11':
         for cfg, script in SG.login_window_cases():
@@ -452,7 +447,12 @@ def run_family(ctx, prop):
         r = random.Random(rng.random())
         # C11 quantifies over soup and fix logins: the FIX client session runs the same scenarios (Cfg.fixLogin on the model side)
         cfg = SG.gen_cfg(r, kind='fix-client' if (prop == 'C11' and r.random() < 0.4) else 'soup-client')
-        script = SG.gen_script(r, cfg, focus=focus)
+        if focus == 'latecancel':
+            # pull mode, or callback mode before login (no dispatcher yet): a receive can be pending
+            cfg = SG.gen_cfg(r, kind='soup-client', mode=r.choice(['pull', 'pull', 'callback']))
+            script = SG.gen_late_cancel(r, cfg)
+        else:
+            script = SG.gen_script(r, cfg, focus=focus)
         if prop == 'C07' and r.random() < 0.7:
             script = script + [('advance', 0.001), ('close', 99)]
         cases.append((cfg, script, r.randrange(1 << 30), focus or 'mixed'))
@@ -482,6 +482,11 @@ def run_family(ctx, prop):
                 for t in it[1]:
                     ctx.count('frame:' + (t if isinstance(t, str) else 'msg'))
         rep = {'kind': 'scenario', 'cfg': cfg_to_json(cfg), 'script': script_to_json(script), 'seed': seed}
+        lc = late_cancels(Facts(cfg, script, res))
+        if lc:
+            # receives / logins cancelled in the one-turn window after the helper task took a message (the former finding)
+            ctx.count('late-cancel-window', lc)
+            ctx.count('late-cancel-window:' + tag.split(':')[0], lc)
         v = violations_of(prop, cfg, script, res)
         if v:
             what, kind = split_kind(v[0])
@@ -500,10 +505,12 @@ def run_family(ctx, prop):
     # callbacks that work and then close, slow cancellation clean-up): property oracle only
     if prop in ('C04', 'C05', 'C06'):
         n_ext = 400 if quick else 8000
+        ext_cases = [(cfg, script, settle, seed) for cfg, script, seed, settle, _ in ext_corpus]
         for _ in range(n_ext):
             r = random.Random(rng.random())
-            cfg, script, settle = SG.gen_ext(r)
-            seed = r.randrange(1 << 30)
+            cfg, script, settle = SG.gen_ext_late(r) if r.random() < 0.2 else SG.gen_ext(r)
+            ext_cases.append((cfg, script, settle, r.randrange(1 << 30)))
+        for cfg, script, settle, seed in ext_cases:
             rep = {'kind': 'scenario', 'ext': True, 'settle': settle, 'cfg': cfg_to_json(cfg), 'script': script_to_json(script), 'seed': seed}
             try:
                 res = run_one(cfg, script, seed, settle)
@@ -516,6 +523,10 @@ def run_family(ctx, prop):
             for it in script:
                 if it[0] in ('paused_recv', 'startdisp'):
                     ctx.count('ext:' + it[0])
+            lc = late_cancels(Facts(cfg, script, res))
+            if lc:
+                ctx.count('late-cancel-window', lc)
+                ctx.count('late-cancel-window:ext', lc)
             for b in cfg['msg_beh'].values():
                 if isinstance(b, tuple) and b[0] in ('sleep_close', 'cleanup'):
                     ctx.count('ext:beh-' + b[0])
@@ -542,6 +553,12 @@ def replay_family(ctx, prop, path):
     if 'app_scenario' in rep:
         import app_sessions as AS
         AS.replay_app(ctx, prop, rep)
+        return
+    if 'late_construct' in rep:
+        import app_sessions as AS
+        ctx.cov['rule'] = 'replay of: late cancel of a pull, then an application session constructed on the soup session'
+        ctx.case('replay-marker')
+        AS.construct_on_stash(ctx, only=list(rep['late_construct']))
         return
     cfg, script, seed = cfg_from_json(rep['cfg']), script_from_json(rep['script']), rep.get('seed', 0)
     res = run_one(cfg, script, seed, rep.get('settle', 0.05))
